@@ -2,6 +2,7 @@
 //! Crash-point x fault enumeration: a scripted body `new; [pending times-fakes]; install A; call A;
 //! install B; call B; install C; call C; drop` and, for every position, one injected panic of every
 //! kind the library or a user can raise there.
+use crate::arena::PAGE;
 use super::pool::*;
 use super::util::*;
 use crate::interpose as ip;
@@ -38,8 +39,13 @@ enum PK {
     /// an over-call panic is caught by the test body (nested catch_unwind), the body carries on and leaves the
     /// scope normally: verification then raises the one and only panic that leaves the scope
     OverCallCaught,
+    /// user panic while the OS refuses every munmap: the trampolines cannot be given back during the unwind
+    UserMunmapFails,
+    /// installation on a function whose entry straddles two pages while the OS refuses to make the SECOND page
+    /// writable: refused, and not one byte of the function written
+    MprotectFailSecondPage,
 }
-const KINDS_ALL: [PK; 17] = [PK::UserNonString, PK::UserInReturns, PK::UserInClosure, PK::OverCallCaught, PK::None, PK::User, PK::WhenReject, PK::OverCall, PK::SigMismatch, PK::SigMismatchFakeMacro, PK::NullTarget, PK::NullFake, PK::BoolOnNonBool, PK::AsyncWrongOutput, PK::MmapFail, PK::MprotectFail, PK::UncheckedMix];
+const KINDS_ALL: [PK; 19] = [PK::UserMunmapFails, PK::MprotectFailSecondPage, PK::UserNonString, PK::UserInReturns, PK::UserInClosure, PK::OverCallCaught, PK::None, PK::User, PK::WhenReject, PK::OverCall, PK::SigMismatch, PK::SigMismatchFakeMacro, PK::NullTarget, PK::NullFake, PK::BoolOnNonBool, PK::AsyncWrongOutput, PK::MmapFail, PK::MprotectFail, PK::UncheckedMix];
 
 #[derive(Clone, Debug)]
 struct Script {
@@ -187,6 +193,18 @@ fn body(pool: &Pool, s: &Script, rng: &mut Rng, obs: &mut Obs) {
             PK::None => {}
             PK::User => panic!("USER: injected at position {}", s.pos),
             PK::UserNonString => std::panic::panic_any(0xC05_u32),
+            PK::UserMunmapFails => {
+                ip::arm_fail_range(ip::K_MUNMAP, 0, i64::MAX);
+                panic!("USER: injected at position {} (munmap refused from here on)", s.pos)
+            }
+            PK::MprotectFailSecondPage => match pool.targets.iter().find(|t| t.synthetic && t.addr % PAGE == PAGE - 3) {
+                Some(t) => {
+                    ip::FAIL_MPROTECT_PAGE.store((t.addr & !(PAGE - 1)) + PAGE, Ordering::SeqCst);
+                    let a = t.addr;
+                    refuse(&mut |inj| inj.when_called(fp(a, SIG_I32)).will_execute_raw(injectorpp::func!(fn (fk0)() -> i32)), obs, inj);
+                }
+                None => panic!("mprotect failed (no page-straddling target in this pool: stand-in for the refusal)"),
+            },
             PK::UserInReturns => {
                 inj.when_called(injectorpp::func!(fn (victim)() -> i32)).will_execute(injectorpp::fake!(func_type: fn() -> i32, returns: raise_user()));
                 let _ = victim();
@@ -272,7 +290,7 @@ thread_local! {
 
 pub fn run(ctx: &Ctx) {
     let scripts = gen(ctx);
-    let pool = std::sync::Arc::new(build_pool_ex(ctx.seed, ctx.get_u("nosynth", 0) == 1));
+    let pool = std::sync::Arc::new(build_pool_full(ctx.seed, ctx.get_u("nosynth", 0) == 1, true));
     let images: Vec<Vec<u8>> = pool.targets.iter().map(|t| img(t.addr)).collect();
     let refuse_image = bytes_at(refuse_me as usize, 16);
     let victim_image = bytes_at(victim as usize, 16);
@@ -329,7 +347,8 @@ pub fn run(ctx: &Ctx) {
                     "no-panic"
                 }
             }
-            PK::User | PK::UserNonString | PK::UserInReturns | PK::UserInClosure => "user",
+            PK::User | PK::UserNonString | PK::UserInReturns | PK::UserInClosure | PK::UserMunmapFails => "user",
+            PK::MprotectFailSecondPage => "mprotect-failed",
             PK::OverCallCaught => "count-mismatch",
             PK::WhenReject => "unexpected-args",
             PK::OverCall => "over-called",
@@ -391,7 +410,7 @@ pub fn run(ctx: &Ctx) {
         // injected mprotect failure is noted only)
         let left = ip::ledger_len() - led0.min(ip::ledger_len());
         if left != 0 {
-            if s.kind == PK::MprotectFail {
+            if s.kind == PK::MprotectFail || s.kind == PK::UserMunmapFails || s.kind == PK::MprotectFailSecondPage {
                 leaked_after_mprotect += 1;
                 d = d.b("note_trampoline_left_after_injected_mprotect_failure", true);
             } else if sig.is_empty() {
